@@ -375,9 +375,14 @@ type verifTarStream struct {
 	pos    int
 	cut    int
 	failAt int
+	hdrs   []int // offsets of the entry headers and of the trailer
 }
 
 func (s *verifTarStream) Read(p []byte) (int, error) {
+	if len(s.hdrs) > 0 && s.pos == s.hdrs[0] && verifM.Params["tar_next_sched"] != 0 {
+		s.hdrs = s.hdrs[1:]
+		verifSched("tar.next") // the stream may stall before every header (engine: tar.Reader.Next)
+	}
 	limit := len(s.data)
 	if s.failAt >= 0 && s.failAt*512 < limit {
 		limit = s.failAt * 512
@@ -396,7 +401,10 @@ func (s *verifTarStream) Read(p []byte) (int, error) {
 func verifTarReader(cut, failAt int) io.Reader {
 	var buf bytes.Buffer
 	w := tar.NewWriter(&buf)
+	var hdrs []int
 	for _, e := range verifTarScript {
+		_ = w.Flush()
+		hdrs = append(hdrs, buf.Len())
 		h := &tar.Header{Name: e.name, Typeflag: e.typeflag, Mode: e.mode, Size: int64(e.size), Format: tar.FormatGNU}
 		if e.typeflag == tar.TypeDir {
 			h.Size = 0
@@ -414,6 +422,8 @@ func verifTarReader(cut, failAt int) io.Reader {
 			}
 		}
 	}
+	_ = w.Flush()
+	hdrs = append(hdrs, buf.Len())
 	if err := w.Close(); err != nil {
 		panic(err)
 	}
@@ -422,7 +432,7 @@ func verifTarReader(cut, failAt int) io.Reader {
 	if cut >= 0 && cut*512 < len(data) {
 		data = data[:cut*512]
 	}
-	return &verifTarStream{data: data, cut: cut, failAt: failAt}
+	return &verifTarStream{data: data, cut: cut, failAt: failAt, hdrs: hdrs}
 }
 
 func verifRunEntry(entry string) {
